@@ -1,5 +1,5 @@
 (* C11 -- model of cellmlmanip/printer.py (Printer.doprint) on SymPy-shaped trees.
-   Mirrors what the code does, including its defects (F10).  No proofs inside.
+   Mirrors what the code does (printer.py after the fixes 2293052 / da05218 / a75e9c2 for F10a / F10b / F17).  No proofs inside.
    The printer builds a bracketed parse tree (Model/PyGrammar.v); the emitted string is [text] of it.
 
    Outcomes:  Ok p  -- the string text(p) is returned
@@ -87,10 +87,10 @@ Definition is_half (e : expr) : bool := match e with ENum 1 q => Qeq_bool q (1 #
 Definition is_neghalf (e : expr) : bool := match e with ENum 1 q => Qeq_bool q (-1 # 2) | _ => false end.
 Definition is_negone (e : expr) : bool := match e with ENum 0 q => Qeq_bool q (-1 # 1) | _ => false end.
 
-(* the precedence _bracket() compares with the parent's: x**-1 and x**(-1/2) print as quotients *)
+(* the precedence _bracket() compares with the parent's: x**-1 and x**(-1/2) print as quotients (PRECEDENCE['Mul']) *)
 Definition eprec (e : expr) : Z :=
   match e with
-  | EPow _ x => if is_neghalf x || is_negone x then 59 else 60
+  | EPow _ x => if is_neghalf x || is_negone x then 50 else 60
   | _ => prec e
   end.
 
@@ -158,90 +158,43 @@ Definition mk_add (l : list (expr * ptree)) : ptree :=
   end.
 
 (* ---- _print_Mul -------------------------------------------------------------------------------- *)
-Definition is_mul (e : expr) : bool := match e with EMul _ => true | _ => false end.
-Definition is_add (e : expr) : bool := match e with EAdd _ => true | _ => false end.
 Definition qint (z : Z) : Q := z # 1.
 
-(* sign, precedence(expr) after the sign has been stripped, Mul.make_args(expr) *)
-Definition mul_split (l : list expr) : option (bool * Z * list expr) :=
+(* sign, Mul.make_args(expr) after the sign has been stripped (operands are always bracketed at PRECEDENCE['Mul']) *)
+Definition mul_split (l : list expr) : option (bool * list expr) :=
   match l with
   | ENum k c :: rest =>
       if qneg c then
         if is_negone (ENum k c) then
           match rest with
-          | [EMul l'] => Some (true, prec (EMul l'), l')
-          | [r1] => Some (true, prec r1, [r1])
-          | _ => Some (true, prec (EMul rest), rest)
+          | [EMul l'] => Some (true, l')
+          | _ => Some (true, rest)
           end
         else
           match rest with
-          | [EMul (r1 :: l')] => if is_num r1 then None else Some (true, 50, ENum k (Qopp c) :: r1 :: l')
-          | r1 :: rest' => if is_num r1 then None else Some (true, 50, ENum k (Qopp c) :: r1 :: rest')
+          | [EMul (r1 :: l')] => if is_num r1 then None else Some (true, ENum k (Qopp c) :: r1 :: l')
+          | r1 :: rest' => if is_num r1 then None else Some (true, ENum k (Qopp c) :: r1 :: rest')
           | [] => None
           end
-      else Some (false, 50, l)
-  | _ => Some (false, prec (EMul l), l)
+      else Some (false, l)
+  | _ => Some (false, l)
   end.
 
-(* numerator items, denominator items (flag: listed in pow_brackets) *)
-Definition classify (it : expr) : list expr * list (expr * bool) :=
+(* numerator items, denominator items *)
+Definition classify (it : expr) : list expr * list expr :=
   match it with
   | EPow base (ENum k q) =>
       if is_ratk k && qneg q then
-        if is_negone (ENum k q) then ([], [(base, is_mul base)])
-        else ([], [(EPow base (ENum k (Qopp q)), false)])
+        if is_negone (ENum k q) then ([], [base])
+        else ([], [EPow base (ENum k (Qopp q))])
       else ([it], [])
   | ENum k q =>
       if is_ratk k then
         ((if Qnum q =? 1 then [] else [ENum 0 (qint (Qnum q))]),
-         (if (Qden q =? 1)%positive then [] else [(ENum 0 (qint (Zpos (Qden q))), false)]))
+         (if (Qden q =? 1)%positive then [] else [ENum 0 (qint (Zpos (Qden q)))]))
       else ([it], [])
   | _ => ([it], [])
   end.
-
-Fixpoint expr_eqb (a b : expr) : bool :=
-  let leq := fix leq (l l' : list expr) : bool :=
-    match l, l' with
-    | [], [] => true
-    | x :: r, y :: r' => expr_eqb x y && leq r r'
-    | _, _ => false
-    end in
-  match a, b with
-  | ENum k q, ENum k' q' => (k =? k') && (Qnum q =? Qnum q') && (Qden q =? Qden q')%positive
-  | EConst c, EConst c' => c =? c'
-  | EQty i q u, EQty i' q' u' => i =? i'
-  | EVar v, EVar v' => v =? v'
-  | EAdd l, EAdd l' => leq l l'
-  | EMul l, EMul l' => leq l l'
-  | EPow x y, EPow x' y' => expr_eqb x x' && expr_eqb y y'
-  | EFn f l, EFn f' l' => (f =? f') && leq l l'
-  | EDeriv y t n, EDeriv y' t' n' => expr_eqb y y' && expr_eqb t t' && (n =? n')
-  | ERel r x y, ERel r' x' y' => (r =? r') && expr_eqb x x' && expr_eqb y y'
-  | EBool o l, EBool o' l' => (o =? o') && leq l l'
-  | ETrue, ETrue | EFalse, EFalse => true
-  | EPw l, EPw l' =>
-      (fix peq (l l' : list (expr * expr)) : bool :=
-         match l, l' with
-         | [], [] => true
-         | (x, c) :: r, (x', c') :: r' => expr_eqb x x' && expr_eqb c c' && peq r r'
-         | _, _ => false
-         end) l l'
-  | _, _ => false
-  end.
-
-(* b.index(x): position of the first element equal to x *)
-Fixpoint first_index (b : list (expr * bool)) (x : expr) : nat :=
-  match b with
-  | [] => O
-  | (y, _) :: r => if expr_eqb y x then O else S (first_index r x)
-  end.
-
-(* how many brackets the pow_brackets loop puts around b_str[i] *)
-Definition wraps (b : list (expr * bool)) (i : nat) : nat :=
-  length (filter (fun yf => snd yf && Nat.eqb (first_index b (fst yf)) i) b).
-
-Fixpoint paren_n (n : nat) (p : ptree) : ptree :=
-  match n with O => p | S m => PParen (paren_n m p) end.
 
 Definition den_entries (b_str : list ptree) : list (bool * ptree) :=
   match b_str with
@@ -292,15 +245,13 @@ Fixpoint pp (n : nat) (e : expr) : res ptree :=
     | EMul l =>
         match mul_split l with
         | None => Unm
-        | Some (sign, my, items) =>
+        | Some (sign, items) =>
             let cl := map classify items in
             let a := concat (map fst cl) in
             let b := concat (map snd cl) in
             let a' := match a with [] => [ENum 0 (qint 1)] | _ => a end in
-            rbind (collect (map (br my) a')) (fun a_str =>
-            rbind (collect (map (fun yf => br my (fst yf)) b)) (fun b_str0 =>
-              let b_str := map (fun ip => paren_n (wraps b (fst ip)) (snd ip))
-                               (combine (seq 0 (length b_str0)) b_str0) in
+            rbind (collect (map (br 50) a')) (fun a_str =>
+            rbind (collect (map (br 51) b)) (fun b_str =>
               Ok (mk_mul sign a_str b_str)))
         end
     | EPow b x =>
@@ -317,7 +268,7 @@ Fixpoint pp (n : nat) (e : expr) : res ptree :=
         else if is_negone x then
           rbind (br 60 b) (fun pb => Ok (PNary KProd (PNum 1) [(false, pb)]))
         else
-          rbind (br 60 b) (fun pb => rbind (br 60 x) (fun px => Ok (PPow pb px)))
+          rbind (br 61 b) (fun pb => rbind (br 60 x) (fun px => Ok (PPow pb px)))
     | EFn f l =>
         if (f =? fn_max) || (f =? fn_min) then Err
         else match fn_name f with
@@ -401,22 +352,8 @@ Fixpoint esize (e : expr) : nat :=
 Definition pre (e : expr) : expr := if is_boolkind e then e else rewrite e.
 Definition doprint (e : expr) : res ptree := let e' := pre e in pp (S (esize e')) e'.
 
-(* ---- the region the value theorem covers (C11P.v); its complement is F10 + the quotient defect -- *)
-Definition f10a (b : expr) : bool :=
-  match b with EPow _ x => negb (is_half x || is_neghalf x || is_negone x) | _ => false end.
-
-Definition den_bad (my : Z) (b : list (expr * bool)) : bool :=
-  match b with
-  | [(d, fl)] => negb fl && (my <=? eprec d) && (eprec d <? 60)
-  | _ => false
-  end.
-
-Definition mul_ok (l : list expr) : bool :=
-  match mul_split l with
-  | None => true
-  | Some (_, my, items) => (50 <=? my) && negb (den_bad my (concat (map (fun it => snd (classify it)) items)))
-  end.
-
+(* ---- the trees the theorems are about: made of the supported constructs, numbers where numbers are expected
+   and truth values where truth values are expected (Quantity / Derivative leaves are outside the model) ---- *)
 Definition isreal (e : expr) : bool := negb (is_boolkind e).
 
 Fixpoint printable (e : expr) : bool :=
@@ -426,8 +363,8 @@ Fixpoint printable (e : expr) : bool :=
   | EVar _ => true
   | EQty _ _ _ | EDeriv _ _ _ => false
   | EAdd l => forallb (fun x => isreal x && printable x) l
-  | EMul l => forallb (fun x => isreal x && printable x) l && mul_ok l
-  | EPow b x => isreal b && isreal x && printable b && printable x && negb (f10a b)
+  | EMul l => forallb (fun x => isreal x && printable x) l
+  | EPow b x => isreal b && isreal x && printable b && printable x
   | EFn _ l => forallb (fun x => isreal x && printable x) l
   | ERel _ a b => isreal a && isreal b && printable a && printable b
   | EBool _ l => forallb (fun x => is_boolkind x && printable x) l
